@@ -229,6 +229,43 @@ def run(ctx):
                 p = unimod_placements(e, pl)
                 run_case(ctx, st, pt, p, {'monoisotopic': mono}, None, None, 0, 0.0, None, mono, 'mass',
                          extra_sig=('unimod-sweep', pl))
+    # modifications given as Python objects rather than text: a float subclass (what numpy.float64 is), a bool-free int,
+    # a Mod instance - each is the number it holds, at every placement
+    class Float64(float):
+        pass
+
+    rng = ctx.rng
+    for _ in range(ctx.n(300, 6000)):
+        seq = ''.join(rng.choice(LETTERS) for _ in range(rng.randint(1, 12)))
+        v = rng.choice([15.9949, 79.96633, -18.0106, 0.984, 229.1629, 42.0])
+        val = rng.choice([Float64(v), pt.Mod(Float64(v), 1), float(v)])
+        mult = 1
+        where = rng.choice(['internal', 'nterm', 'cterm', 'labile', 'unknown'])
+        ctx.begin({'sequence': seq, 'value': repr(v), 'python_type': type(val).__name__, 'where': where})
+        try:
+            with ctx.eng.suspend():
+                a = pt.parse(seq)
+                if where == 'internal':
+                    a.add_internal_mod(rng.randrange(len(seq)), val, append=True)
+                elif where == 'nterm':
+                    a.add_nterm_mods(val, append=True)
+                elif where == 'cterm':
+                    a.add_cterm_mods(val, append=True)
+                elif where == 'labile':
+                    a.add_labile_mods(val, append=True)
+                else:
+                    a.add_unknown_mods(val, append=True)
+                got = pt.mass(a) - pt.mass(seq)
+            ctx.decided()
+            if abs(got - v * mult) > 1e-6:
+                ctx.violation('object-valued-modification-mass-differs',
+                              {'sequence': seq, 'value': v, 'python_type': type(val).__name__, 'where': where,
+                               'observed_shift': got})
+        except Exception as ex:
+            ctx.decided()
+            ctx.violation('object-valued-modification-raises', {'sequence': seq, 'where': where,
+                                                                'exception': f'{type(ex).__name__}: {ex}'[:200]})
+        ctx.sig(('object-value', type(val).__name__, where), True)
     ctx.extra['mod_mass_decisions'] = st.mod_mass_checked
     ctx.extra['chem_mass_decisions'] = st.chem_mass_checked
 
